@@ -580,10 +580,13 @@ pub fn run_step(
                     ));
                 }
                 SExp::Cons(l, a, b) => {
-                    if let SExp::Cons(_, op, _) = a.borrow() {
+                    if let SExp::Cons(_, op, op_end) = a.borrow() {
                         // ((op) . operands): the consensus evaluator hands the
                         // operands to op as they are, without evaluating them.
-                        if matches!(op.borrow(), SExp::Cons(_, _, _)) {
+                        // (op) holds exactly one element, an atom.
+                        if matches!(op.borrow(), SExp::Cons(_, _, _))
+                            || matches!(op_end.borrow(), SExp::Cons(_, _, _))
+                        {
                             return Err(RunFailure::RunErr(
                                 l.clone(),
                                 format!("in ((X)...) syntax X must be lone atom {sexp}"),
